@@ -15,6 +15,7 @@ for d in ${SRC_GLOB:-/tmp/wt/C*/MUT*}; do
   prop=$(basename $(dirname $d)); prop=${prop#R2}; k=$(basename $d); n=${k#MUT}; id="${prop}_MUT$((n+${OFFSET:-0}))"
   [ -n "${ONLY:-}" ] && [[ ! " $ONLY " =~ " $prop " ]] && continue
   demo_path=$(grep -ohE "(lexpr|serde-lexpr)/tests/[A-Za-z0-9_]+\.rs" $d/README.md | head -1)
+  [ -z "$demo_path" ] && demo_path="lexpr/tests/demo_$(echo $id | tr 'A-Z' 'a-z').rs"
   crate=$(dirname $(dirname $demo_path)); tname=$(basename $demo_path .rs)
   cd $WT && git checkout -q -- . && git clean -fdq
   if ! git apply --check $d/patch.diff 2>/dev/null; then echo "$id patch-does-not-apply" >> $LOG; continue; fi
